@@ -90,6 +90,10 @@ static long mc_seed = 0;
 static int mc_replaying = 0;
 static char mc_bounds[4000];
 static const char *mc_level = "model_checking";  // harness may describe the bounds of this tier here
+static const char *mc_part = "";   // multi-binary checks (C18): evidence goes to build/<ID>/part-<part>.json, merged by the driver
+static int mc_defer_replay = 0;     // harness sets this before mc_init if replay needs set-up first; then it calls mc_do_replay itself
+static const char *mc_replaying_file = NULL;
+static char *mc_note;              // shared page: free text a dying worker leaves behind (e.g. the write-trap address)
 
 static double mc_now(void) {
     struct timespec ts;
@@ -356,6 +360,10 @@ static void mc_phase(const char *name, McPhaseFn fn, void *arg) {
                              strsignal(WTERMSIG(st)), w->in_case ? "inside this case" : "outside any case");
                 else if (WEXITSTATUS(st) == 97)
                     snprintf(v->msg, sizeof v->msg, "the case did not return within %.0f s (hang / unbounded loop)", mc_case_limit);
+                else if (WEXITSTATUS(st) == 96)
+                    snprintf(v->msg, sizeof v->msg, "write trap: %.400s", mc_note ? mc_note : "");
+                else if (WEXITSTATUS(st) == 66)
+                    snprintf(v->msg, sizeof v->msg, "ThreadSanitizer reported a data race inside this case");
                 else
                     snprintf(v->msg, sizeof v->msg, "worker exited with status %d %s", WEXITSTATUS(st),
                              w->in_case ? "inside this case" : "outside any case");
@@ -415,6 +423,10 @@ static int mc_confirm(const McCase *c, char *msg, size_t n) {
             snprintf(msg, n, "process died with signal %d (%s)", WTERMSIG(st), strsignal(WTERMSIG(st)));
         else if (WEXITSTATUS(st) == 97)
             snprintf(msg, n, "the case did not return within %.0f s (hang / unbounded loop)", 2 * mc_case_limit);
+        else if (WEXITSTATUS(st) == 96)
+            snprintf(msg, n, "write trap: %.400s", mc_note ? mc_note : "");
+        else if (WEXITSTATUS(st) == 66)
+            snprintf(msg, n, "ThreadSanitizer reported a data race");
         else
             snprintf(msg, n, "process exited with status %d (sanitizer report or abort)", WEXITSTATUS(st));
     } else if (slot->nviol_total) {
@@ -485,15 +497,22 @@ static void mc_init(int argc, char **argv) {
     if (mc_nw < 1) mc_nw = 1;
     if (mc_nw > MC_MAXW) mc_nw = MC_MAXW;
     if ((e = getenv("VERIF_SEED")) && *e) mc_seed = atol(e);
+    if ((e = getenv("VERIF_PART")) && *e) mc_part = e;
+    mc_note = mc_shalloc(4096);
     mc_workers = mc_shalloc(sizeof(McWorker) * MC_MAXW);
     memset(mc_workers, 0, sizeof(McWorker) * MC_MAXW);
     mc_w = &mc_workers[0];
     mc_load_known();
     setvbuf(stdout, NULL, _IOLBF, 0);
+    if (replay && mc_defer_replay) {
+        mc_replaying_file = replay;
+        mc_replaying = 1;
+        return;
+    }
     if (replay) exit(mc_do_replay(replay));
     for (int i = 0; i < 64; i++) {  // stale replay files of this tier
         char path[256];
-        snprintf(path, sizeof path, "/verif/replay/%s/%s-%d.json", MC_PROPERTY, mc_tier, i);
+        snprintf(path, sizeof path, "/verif/replay/%s/%s%s-%d.json", MC_PROPERTY, mc_tier, mc_part, i);
         unlink(path);
     }
 }
@@ -587,11 +606,11 @@ static int mc_finish(void) {
             mkdir("replay", 0777);
             mkdir(dir, 0777);
             char path[512];
-            snprintf(path, sizeof path, "/verif/replay/%s/%s-%d.json", MC_PROPERTY, mc_tier, nreported);
+            snprintf(path, sizeof path, "/verif/replay/%s/%s%s-%d.json", MC_PROPERTY, mc_tier, mc_part, nreported);
             FILE *f = fopen(path, "w");
             if (f) {
-                fprintf(f, "{\n \"property\": \"%s\",\n \"tier\": \"%s\",\n \"case\": \"%s\",\n \"message\": ",
-                        MC_PROPERTY, mc_tier, key);
+                fprintf(f, "{\n \"property\": \"%s\",\n \"tier\": \"%s\",\n \"part\": \"%s\",\n \"case\": \"%s\",\n \"message\": ",
+                        MC_PROPERTY, mc_tier, mc_part, key);
                 mc_json_str(f, all[i].msg);
                 fprintf(f, ",\n \"replay_cmd\": \"./check %s --replay %s\"\n}\n", MC_PROPERTY, path);
                 fclose(f);
@@ -607,7 +626,10 @@ static int mc_finish(void) {
     // evidence
     mkdir("evidence", 0777);
     char ep[256], tmp[300];
-    snprintf(ep, sizeof ep, "evidence/%s.json", MC_PROPERTY);
+    if (*mc_part)
+        snprintf(ep, sizeof ep, "build/%s/part-%s.json", MC_PROPERTY, mc_part);
+    else
+        snprintf(ep, sizeof ep, "evidence/%s.json", MC_PROPERTY);
     snprintf(tmp, sizeof tmp, "%s.tmp", ep);
     FILE *f = fopen(tmp, "w");
     if (!f) {
